@@ -111,7 +111,13 @@ def _obs(n, obj, leaves):
     ev = obj.evaluate({l: lo for l, (lo, hi) in leaves.items()})
     o["evaluate"] = [int(ev.lower), int(ev.upper)]
     try:
-        P = obj.to_ge_polyhedron(True)
+        import contextlib, os
+        with open(os.devnull, "w") as dn, contextlib.redirect_stderr(dn):
+            saved = os.dup(2); os.dup2(dn.fileno(), 2)
+            try:
+                P = obj.to_ge_polyhedron(True)
+            finally:
+                os.dup2(saved, 2); os.close(saved)
         o["poly"] = [numpy.asarray(P).astype(int).tolist(), [str(v.id) for v in P.variables]]
     except BaseException as e:   # noqa  (pyo3 PanicException is a BaseException)
         o["poly"] = "raises %s" % type(e).__name__
